@@ -38,6 +38,28 @@ def _is_round_call(t, var):
     return t[0] == "call" and t[1] == ("fn", "self.round")
 
 
+def check_prp_stateless(repo, rule):
+    for rel, cname in ((FPE, "BitwiseFFX"), ("toolkit/prp/bitwise_fpe_prp.py", "BitwiseFPEPRP"), (LR, "LubyRackoffPRP"),
+                       ("toolkit/prp/hmac_luby_rackoff_prp.py", "HmacLubyRackoffPRP")):
+        ci = repo.cls(rel, cname)
+        for mname, fi in ci.methods.items():
+            if mname == "__init__":
+                continue
+            for st in ast.walk(fi.node):
+                tg = st.targets if isinstance(st, ast.Assign) else ([st.target] if isinstance(st, ast.AugAssign) else [])
+                for t in tg:
+                    base = t
+                    while isinstance(base, (ast.Attribute, ast.Subscript)):
+                        base = base.value
+                    if isinstance(base, ast.Name) and base.id == "self" and t is not base:
+                        rule.fail_fn(fi, st, "%s.%s keeps state" % (cname, mname),
+                                     "%s.%s stores %s on the object: the permutation computed by a later call (e.g. under another key) depends on an earlier one" % (cname, mname, unparse(t)))
+        rule.ok({"class": "%s::%s" % (rel, cname), "methods": sorted(ci.methods)})
+    rnd = repo.func(FPE, "BitwiseFFX.round")
+    keyed = [c for c in ast.walk(rnd.node) if isinstance(c, ast.Call) and dotted(c.func) == "hmac.new" and c.args and isinstance(c.args[0], ast.Name) and c.args[0].id == rnd.params[1]]
+    rule.require(bool(keyed), rnd, "round MAC keyed with this call's key", "BitwiseFFX.round no longer keys its MAC with the key passed to this call")
+
+
 def check(repo):
     r1 = Rule("R15.1", "encryption round is (a, b) -> (b, a xor F(b)) with F independent of a")
     r2 = Rule("R15.2", "decryption round inverts the encryption round; round order is reversed")
@@ -164,6 +186,9 @@ def check(repo):
     r4.require(bool(pre) and "i, *s" in unparse(pre[0].value), rnd, "round binds round index and half", "BitwiseFFX.round no longer feeds the round index and the half into the MAC input")
     dflt_len = [st for st in rnd.node.body if isinstance(st, ast.If) and unparse(st.test) == "output_len == 0"]
     r4.require(bool(dflt_len), rnd, "default width", "BitwiseFFX.round lost its default width (len(s))")
+
+    # the permutation is a function of (key, input): no state kept on the cipher / PRP objects after construction
+    check_prp_stateless(repo, r4)
 
     # ---------------------------------------------------------------- R15.5 contracts
     for rel, qual, subj, decl in (("toolkit/prp/bitwise_fpe_prp.py", "BitwiseFPEPRP.__call__", "key", "key_bit_length"),
